@@ -21,7 +21,8 @@ INFO = {
 }
 
 WORDS = ['prog', './a.out', '--help', '-x', 'a b', '', '"', "'", '\\', 'a\\b', 'a"b', "it's", 'x\\', '\\n', 'tab\there', '$HOME', '`id`', ';', '*',
-         '-r', '--run', '-g', '--gdb', '-rg', '-Cr', '-l', '-f', 'wl_surface', '--', '-', '--supress', 'é', 'a\nb', '%s', '{0}', "'\"", 'x' * 40]
+         '-r', '--run', '-g', '--gdb', '-rg', '-Cr', '-l', '-f', 'wl_surface', '--', '-', '--supress', 'é', 'a\nb', '%s', '{0}', "'\"", 'x' * 40,
+         '100%', '%', '%%', '%d%s', 'a%sb', '%(x)s', '{', '}', '{}', '\\\\', '\\n', 'a\rb', '\x1b[0m']
 FLAGS = ['-p', '--pipe', '-C', '--no-color', '--color', '--supress', '--verbose']
 VALUED = ['-l', '--load', '-f', '--filter', '-b', '--break']
 MARKERS = ['-r', '--run', '-g', '--gdb', '-Cr', '-Cg', '-rC', '-gC', '-pr', '-Cpg', '-rg', '-gr', '--r', '-run', '--gdbx', '-R', 'r', '-rr', '-gg']
@@ -220,11 +221,16 @@ def run_mode_argv(res, rnd):
 CORPUS = [['main.py', '-g', 'prog'], ['main.py', '-Cr', 'prog', '-g'], ['main.py', '-f', 'wl_surface', '--gdb', '--args', 'a b', '-r'],
           ['main.py', '-f', '(x="a\\b")', '-g', 'prog'], ['main.py', '-f', "(x=\"it's\")", '-g'], ['main\\.py', '-g'], ['main.py', '-b', 'x\\', '-g', 'p'],
           ['main.py'], ['main.py', '-p', '-l', 'x'], ['main.py', '-rC', 'p'], ['main.py', '-f', '(', '-r', 'p'], ['main.py', '-l', 'f.log'], ['main.py', '-p'],
-          ['main.py', '-f', '', '-p'], ['-r', 'x'], ['main.py', '--run'], ['main.py', '-r', '-r', '-g']]
+          ['main.py', '-f', '', '-p'], ['-r', 'x'], ['main.py', '--run'], ['main.py', '-r', '-r', '-g'],
+          ['main.py', '-f', '(x="50%% done")', '-g', 'prog'], ['main.py', '-b', 'xdg_toplevel.set_title("100%")', '-g', '--args', 'prog'],
+          ['main.py', '-f', '(x="%s")', '-Cg', 'prog', '%s'], ['main.py', '-f', '(x="{0}")', '-g', 'prog', '{}'], ['main.py', '-Cr', 'prog', '-r'], ['main.py', '-Cg', '-r']]
 
 
 def replay(dis):
     av = dis['input']
-    print('impl :', impl_parse(av))
-    print('model:', common.model_eval('argv', [av], shards=1)[0])
-    return 0
+    i = impl_parse(av)
+    m = common.model_eval('argv', [av], shards=1)[0]
+    print('impl :', i)
+    print('model:', m)
+    print('REPRODUCED' if i != m else 'not reproduced on the current tree')
+    return 1 if i != m else 0
